@@ -272,7 +272,7 @@ func classOfType(t string) byte {
 func representable(src c03Source, typ string) string {
 	lo, hi, _ := typeRange(typ)
 	e := src.goExpr
-	if src.id == "ubig" {
+	if src.id == "ubig" || src.id == "xbig" {
 		return "true"
 	}
 	switch src.class {
@@ -383,6 +383,7 @@ func genC03(tier string, seed int64) (*Family, error) {
 		{"nu8", "\tnu8 := vnd.Uint8(\"nu8\")\n\tdc.Add(\"nu8\", nu8)\n", "nu8", "nu8", 'U', "uint8"},
 		{"nf32", "\tkk := vnd.Int8(\"kk\")\n\tnf32 := float32(kk)\n\tdc.Add(\"nf32\", nf32)\n", "nf32", "nf32", 'F', "float32"},
 		// round 7 (seed C03-m13): unsigned values with the top bit set that are exactly representable as float32/float64
+		{"xbig", "\tkc := vnd.Uint8(\"kc\")\n\txbig := -(int64(1) << 62) - int64(kc)<<40\n\tdc.Add(\"xbig\", xbig)\n", "xbig", "xbig", 'I', ""},
 		{"ubig", "\tkb := vnd.Uint8(\"kb\")\n\tubig := uint64(1)<<63 + uint64(kb)<<40\n\tdc.Add(\"ubig\", ubig)\n", "ubig", "ubig", 'U', ""},
 	}
 	var b strings.Builder
@@ -400,7 +401,7 @@ func genC03(tier string, seed int64) (*Family, error) {
 			if !t.cross && s.class != tc {
 				continue
 			}
-			if s.id == "ubig" && !(t.cross && tc == 'F') {
+			if (s.id == "ubig" || s.id == "xbig") && !(t.cross && tc == 'F') {
 				continue // above MaxInt64: representable only in the float targets (and uint64, covered by u)
 			}
 			if tier != "thorough" && s.narrow != "" && t.cross && !(t.key == "I64" || t.key == "U64" || t.key == "F64" || t.key == "pi") {
@@ -533,6 +534,26 @@ type callRec struct {
 	vnd.Reach("executed")
 	vnd.Assert(err == nil, "the call succeeds")
 	vnd.Assert(vnd.And(vnd.And(ga == float64(x), gb == int64(k)), vnd.And(gc == uint8(y), gd == z)), "arguments converted across classes")
+	got, ok := res["r"].(bool)
+	vnd.Assert(ok && got, "the rule sees the result")
+	untouched(d, s, p, q, "")
+}
+`)
+	add("C_func_big_into_float", "call", "unsigned arguments above MaxInt64 and large negative arguments into float parameters", `func C_func_big_into_float() {
+	d, s, p, q := newD()
+	dc := inject(d, p)
+	var ga, gc float64
+	var gb float32
+	dc.Add("fn", func(a float64, b float32, c float64) bool { ga, gb, gc = a, b, c; return true })
+	kb, kc := vnd.Uint8("kb"), vnd.Uint8("kc")
+	ubig := uint64(1)<<63 + uint64(kb)<<40
+	xbig := -(int64(1) << 62) - int64(kc)<<40
+	dc.Add("ubig", ubig)
+	dc.Add("xbig", xbig)
+	err, res := exec(dc, " return fn(ubig, ubig, xbig)")
+	vnd.Reach("executed")
+	vnd.Assert(err == nil, "the call succeeds")
+	vnd.Assert(vnd.And(ga == float64(ubig), vnd.And(gb == float32(ubig), gc == float64(xbig))), "arguments converted across classes")
 	got, ok := res["r"].(bool)
 	vnd.Assert(ok && got, "the rule sees the result")
 	untouched(d, s, p, q, "")
